@@ -896,7 +896,7 @@ def check_real_polygon(ext, holes, z=2.5, samples=120, seed=7):
     tb, cum = R._samplingData
     pref = list(itertools.accumulate(t.area for t, _ in tb))
     if len(tb) != len(cum) or any(abs(a - b) > tol for a, b in zip(cum, pref)) or any(tuple(b) != tuple(t.bounds) for t, b in tb) or abs((cum[-1] if cum else 0) - P.area) > tol:
-        res["cumulative_weights_are_prefix_sums_of_the_triangle_areas"] = f"cumulative weights {list(cum)} vs prefix sums {pref} (polygon area {P.area:.6g})"
+        res["cumulative_weights_are_prefix_sums_of_the_triangle_areas"] = f"cumulative weights {list(cum)}, prefix sums of the triangle areas {pref}, total must be the polygon area {P.area:.6g}"
     random.seed(seed)
     grown = P.buffer(1e-9)
     for _ in range(samples):
